@@ -56,11 +56,13 @@ def model_jobs(tier):
                                              drop=["CONSTRAINT Emit"])),
         ("neg-joined", "Collect", subst_cfg("CollectMC_deep.cfg", "negj.cfg", DestMode='"joined"', MaxLen="5",
                                             drop=["CONSTRAINT Emit"])),
+        ("neg-unstripped", "Collect", subst_cfg("CollectMC_deny.cfg", "negu.cfg", DestMode='"unstripped"', DenyMax="0",
+                                                drop=["CONSTRAINT Emit"])),
     ]
     return jobs
 
 
-EXPECT_NEG = {"neg-textual": "Contained", "neg-joined": "WritesUnderOut"}
+EXPECT_NEG = {"neg-textual": "Contained", "neg-joined": "WritesUnderOut", "neg-unstripped": "FactoryWritesUnderOut"}
 
 
 def run_models(tier):
@@ -164,7 +166,9 @@ def run(prop, tier):
                      ("serialisation wrote data files", ps.get("datafiles", 0) > 0),
                      ("deny cases opened/executed permitted items", ds.get("accessed", 0) > 0),
                      ("commands were really executed", ds.get("really_executed", 0) > 0),
-                     ("deny cases wrote metadata", ds.get("docs", 0) > 0)):
+                     ("deny cases wrote metadata", ds.get("docs", 0) > 0),
+                     ("factories' results were persisted by the observer", ds.get("datafiles", 0) > 0),
+                     ("file names with a blank were candidate items", ds.get("blank_items", 0) > 0)):
         if not ok:
             raise lib.MachineryError("vacuity: never observed that %s (%s)" % (what, stats))
 
@@ -189,6 +193,7 @@ def run(prop, tier):
     val = lib.validate_traces("CollectTrace", "CollectTrace.cfg", traces + mutants, jobs=jobs)
     print("timing: validation %.1fs (%d events, %d JVMs)" % (time.time() - t1, val["events"], val["jvms"]))
     byid = dict((t["id"], t) for t in traces + mutants)
+    denybyid = dict((c["id"], c) for c in deny)
     verdict = lib.Verdict(prop, tier)
     verdict.t0 = t0                      # wall time of the whole run, not only of the verdict step
     mut_rejected = set()
@@ -210,12 +215,17 @@ def run(prop, tier):
             what = ("serialising the provider of path '%s' (save_as=%s) wrote %s; output directory is node %s (clause %s)"
                     % ("/".join(ev["path"]), ev["saveas"],
                        ["/".join(w) for w in ev["written"]], t["lay"]["out"], clause))
+        elif ev["ev"] == "fpersist":
+            what = ("%s(kind=%s, save_as form %s) persisted by the Hydration observer wrote %s; output directory is "
+                    "out/ (clause %s)" % (ev["factory"], ev["kind"], ev["saveas"],
+                                          ["/".join(w) for w in ev["written"]], clause))
         else:
             bad = [" ".join(i["w"]) for i in ev["items"] if i["acc"]]
             what = ("%s with deny files=%s commands=%s components=%s accessed %s (clause %s)"
                     % (ev["factory"], [" ".join(w) for w in ev["files"]], [" ".join(w) for w in ev["commands"]],
                        ev["comps"], bad, clause))
-        verdict.reject(lib.sig(prop, clause), what, dict(trace_id=rj["id"], event=ev, layout=t["lay"], rejected=rj))
+        verdict.reject(lib.sig(prop, clause), what, dict(trace_id=rj["id"], event=ev, layout=t["lay"], rejected=rj,
+                                                         case=denybyid.get(rj["id"])))
     need = set((m["id"], m["expect"]) for m in mutants if m["expect"] != "accepted")
     if need != mut_rejected:
         raise lib.MachineryError("binding self-test: expected rejections %s, got %s"
@@ -252,7 +262,7 @@ def run(prop, tier):
              "distinct (factory, non-empty deny configuration)",
         samples=samples, assumptions=ASSUMPTIONS,
         extra=dict(layouts=len(layouts), layout_path_pairs=npaths, deny_cases=len(deny), driver_stats=stats,
-                   invariants_checked_on_model=INV_PATH + ["DenyRespected"], action_coverage=cov,
+                   invariants_checked_on_model=INV_PATH + ["DenyRespected", "FactoryWritesUnderOut"], action_coverage=cov,
                    negative_model_runs=neg, selftest_corrupted_traces_rejected=len(need),
                    random_layouts=stats.get("path", {}).get("random_layouts", 0), exhaustive=False))
     return verdict.finish(ev)
@@ -275,8 +285,16 @@ def selftest_traces(lay):
                stored=False)
     sym = dict(ev="collect", factory="spec", kind="text", comp="hosts", files=[["hosts"]], commands=[], comps=[],
                items=[dict(t="file", w=["/etc/hosts"], acc=False)], stored=False)
+    blank = dict(ev="collect", factory="glob_file", kind="text", comp="", files=[["/x/my", "b"], ["/x/a"]], commands=[],
+                 comps=[], items=[dict(t="file", w=["/x/ab"], acc=True), dict(t="file", w=["/x/my", "b"], acc=False)],
+                 stored=True)
+    fper = dict(ev="fpersist", factory="command_with_args", kind="text", saveas="absfile", path=[],
+                written=[["out", "data", "insights_commands", "sv", "x"], ["out", "meta_data", "c.json"]],
+                dsts=[["out", "data", "insights_commands", "sv", "x"], ["out", "meta_data", "c.json"]])
+    dlay = dict(fs=[dict(k="dir", p=1, n="", abs=False, segs=[]), dict(k="dir", p=1, n="root", abs=False, segs=[]),
+                    dict(k="dir", p=1, n="out", abs=False, segs=[])], root=["root"], out=3)
     out = [dict(id="selftest/base", expect="accepted", kind="path", lay=L, events=[prov, pers]),
-           dict(id="selftest/base-deny", expect="accepted", kind="deny", lay=dict(fs=[], root=[], out=0), events=[col, sym])]
+           dict(id="selftest/base-deny", expect="accepted", kind="deny", lay=dlay, events=[col, sym, blank, fper])]
 
     def variant(tag, expect, base, fn):
         m = copy.deepcopy(out[base])
@@ -293,6 +311,11 @@ def selftest_traces(lay):
     variant("unexplained", "R4.destination", 0, lambda e: e[1]["written"].append(outloc + ["data", "zz"]))
     variant("cmd", "DenyRespected", 1, lambda e: e[0]["items"][0].update(acc=True))
     variant("symbolic", "DenyRespected", 1, lambda e: e[1]["items"][0].update(acc=True))
+    variant("blank", "DenyRespected", 1, lambda e: e[2]["items"][1].update(acc=True))
+    variant("refused", "WritesUnderOut", 1, lambda e: (e[3]["written"].append(["<outside>", "sv", "x"]),
+                                                       e[3]["dsts"].append(["<outside>", "sv", "x"])))
+    variant("sibling", "WritesUnderOut", 1, lambda e: (e[3]["written"].append(["root", "sv", "x"]),
+                                                       e[3]["dsts"].append(["root", "sv", "x"])))
     return out
 
 
@@ -304,10 +327,8 @@ def replay(prop, path):
     ev = rp["event"]
     payload = dict(base=os.path.join(lib.subdir("c06fs"), "replay"), seed=lib.seed(), vias=VIAS,
                    saveas=["none", "file", "dir"], layouts=[], deny=[])
-    if ev["ev"] == "collect":
-        payload["deny"] = [dict(id="replay", factory=ev["factory"], comp=ev["comp"], files=ev["files"],
-                                commands=ev["commands"], comps=ev["comps"],
-                                items=[dict(t=i["t"], w=i["w"]) for i in ev["items"]])]
+    if ev["ev"] in ("collect", "fpersist"):
+        payload["deny"] = [dict(rp["case"], id="replay")]
     else:
         p = list(ev["path"])
         if p and p[-1] == "*":
